@@ -1,7 +1,9 @@
-(* C15 — content filling and wrapper search are sound (theorems) and complete (evaluated per case
-   against independent closures by Corr.C15.holds; not yet a theorem). *)
+(* C15 — content filling and wrapper search are sound AND complete, and the wrapper chain found is a shortest
+   one: theorems over every automaton table (the completeness theorems ask that the table's edges stay inside the
+   table - [closed_schema], [closed_types], boolean checks evaluated on the dumped schema in every C15 case).
+   create_and_fill is evaluated per case by Corr.C15.holds. *)
 From Coq Require Import List Bool Arith.
-From PM Require Import Model.Data Model.Mark Model.Tree Model.Step Model.Fill Proofs.FillProofs.
+From PM Require Import Model.Data Model.Mark Model.Tree Model.Step Model.Fill Proofs.FillProofs Proofs.FillComplete Proofs.WrapComplete.
 Import ListNotations.
 
 (* over every deterministic automaton table (what the compiler produces; [det_schema] is a boolean check):
@@ -21,3 +23,30 @@ Theorem C15_find_wrapping_sound : forall s, det_schema s = true -> forall q targ
   find_wrapping s q target = Some chain -> chain_fits s q chain target true.
 Proof. exact find_wrapping_sound. Qed.
 Print Assumptions C15_find_wrapping_sound.
+
+(* ---- completeness ----
+   fill_before returns nothing ONLY IF no filling exists: when the search fails from a state of the table, NO sequence
+   of generatable node types leads from that state to a state from which the rest of the content matches (to a
+   valid end when asked).  Proof: when the depth-first search fails, its visited list contains the start state, is
+   closed under generatable edges and holds no finishing state; the fuel (number of states + 1) always suffices. *)
+Theorem C15_fill_before_complete : forall s after te st q,
+  closed_schema s = true -> q < length (s_states s) ->
+  fill_before_types s q after te st = None ->
+  forall ts q', forallb (generatable s) ts = true -> match_types s q ts = Some q' ->
+    finished s after te st q' = false.
+Proof. intros s after te st q Hc. exact (fill_before_types_complete s after te st Hc q). Qed.
+Print Assumptions C15_fill_before_complete.
+
+(* find_wrapping returns nothing ONLY IF no chain of wrapper types fits *)
+Theorem C15_find_wrapping_complete : forall s q target,
+  closed_types s = true -> find_wrapping s q target = None ->
+  forall chain, ~ chain_fits s q chain target true.
+Proof. intros s q target Hc. exact (find_wrapping_none_no_chain s q target Hc). Qed.
+Print Assumptions C15_find_wrapping_complete.
+
+(* ... and the chain it returns is a SHORTEST fitting chain *)
+Theorem C15_find_wrapping_shortest : forall s q target chain,
+  closed_types s = true -> find_wrapping s q target = Some chain ->
+  forall c, chain_fits s q c target true -> length chain <= length c.
+Proof. intros s q target chain Hc. exact (find_wrapping_shortest s q target Hc chain). Qed.
+Print Assumptions C15_find_wrapping_shortest.
